@@ -48,7 +48,9 @@ func (ibs *IntegrityBlockSigner) SignAndAddNewSignature(ed25519publicKey ed25519
 
 	// Verification is done after signing to ensure that the signing was successful and that the obtained public key
 	// is not corrupted and corresponds to the private key used for signing.
-	VerifyEd25519Signature(ed25519publicKey, signature, dataToBeSigned)
+	if _, err := VerifyEd25519Signature(ed25519publicKey, signature, dataToBeSigned); err != nil {
+		return err
+	}
 
 	ibs.IntegrityBlock.addNewSignatureToIntegrityBlock(signatureAttributes, signature)
 	return nil
